@@ -653,7 +653,9 @@ class P(Property):
             'back-pressure (write budgets 0,1,2,3,7,63 and stream credits 0..3 withheld, granted piecemeal by W<id>:<k> / G / H, faults while a write is pending; '
             'send calls wait on peer credit and must end on STOP_SENDING or connection loss); STOP_SENDING / RESET on the streams h3 itself opened; application calls '
             'send_trailers, stop_sending, stop_stream, shutdown(n) then accept(), split(), SendRequest drop; a WebTransport session whose uni / bidi streams are read '
-            'through both AsyncRead impls with buffer sizes {1,2,c-1,c,c+1}; every error is also rendered with Display / is_h3_no_error / source() inside the case; '
+            'through both AsyncRead impls with buffer sizes {1,2,c-1,c,c+1}, WebTransport open_uni / open_bi and their write side, damaged WebTransport headers; '
+            'client drivers awaiting wait_idle() and calling client shutdown, h3::client::new / server::Connection::new, an h3-datagram reader / sender task fed by D:<hex> events; '
+            'faults and budgets on the grease stream; non-contiguous receive buffers (SEG<n>); stream ids above 15; accept / poll_close / wait_idle must complete once the peer control stream ended; every error is also rendered with Display / is_h3_no_error / source() inside the case; '
             'oracle: no panic, no process crash, no executor livelock, no call pending at quiescence once its stream was FINed/RESET or the '
             'connection was lost, no call that completes only after a forced re-poll at quiescence (lost wake-up), nothing pending after the final '
             'connection close, errors are proper (scope:code:variant, and no self-declared H3_INTERNAL_ERROR unless the transport reported an internal error). '
@@ -739,7 +741,7 @@ class P(Property):
 
     def impl_env(self):
         # watchdog of the harness: a single h3 call that spins is reported as a crash of that case
-        return {'C06_CASE_TIMEOUT_S': os.environ.get('C06_CASE_TIMEOUT_S', '20' if getattr(self, '_tier', 'quick') == 'quick' else '900')}
+        return {'C06_CASE_TIMEOUT_S': os.environ.get('C06_CASE_TIMEOUT_S', '8' if getattr(self, '_tier', 'quick') == 'quick' else '900')}
 
     # ---------------------------------------------------------------- judging
     def family(self, case):
